@@ -468,6 +468,20 @@ class Unit:
             if k > len(st):
                 raise SpliceError("%s: %s: only %d statements" % (name, pos, len(st)))
             return st[k - 1][0] if mt.group(2) == "before" else st[k - 1][1]
+        mt = re.match(r"^stmt(\d+)\.body_end$", pos)
+        if mt:
+            # just before the closing brace of the (last) block of the N-th top-level statement, e.g. the then-block of an `if`
+            st = splice.statements(sh.m, sh.body_open, sh.body_close)
+            k = int(mt.group(1))
+            if k > len(st):
+                raise SpliceError("%s: %s: only %d statements" % (name, pos, len(st)))
+            (a, b, term) = st[k - 1]
+            e = b - 1
+            while e > a and sh.m[e] in " \t\r\n;":
+                e -= 1
+            if sh.m[e] != "}":
+                raise SpliceError("%s: %s: statement does not end with a block" % (name, pos))
+            return e
         mt = re.match(r"^marker:([\w.]+)$", pos)
         if mt:
             # positions defined by a desugaring template (markers are comments inside the generated template text)
